@@ -27,7 +27,12 @@ const PROBE_EXP: i32 = i32::MAX;
 thread_local! { static NOW: std::cell::Cell<(i32, i32)> = std::cell::Cell::new((i32::MIN, i32::MIN)); static SAW_EXPIRED: std::cell::Cell<(i32, i32)> = std::cell::Cell::new((i32::MIN, 0)); }
 fn watch(now: i32, exempt_key: i32) { NOW.with(|n| n.set((now, exempt_key))); }
 fn unwatch() -> Option<(i32, i32)> { NOW.with(|n| n.set((i32::MIN, i32::MIN))); let v = SAW_EXPIRED.with(|s| s.replace((i32::MIN, 0))); if v.0 == i32::MIN { None } else { Some(v) } }
-fn observe(x: &KK) { NOW.with(|n| { let (now, ex) = n.get(); if now != i32::MIN && x.1 != PROBE_EXP && x.0 != ex && x.1 <= now { SAW_EXPIRED.with(|s| s.set((x.0, x.1))); } }); }
+// a probe carries an expiration of its own, which must not matter (keys compare by key only; C06 / C01 speak about the stored
+// entry's expiration): probes are marked PROBE_EXP (never expires) or by a value <= PROBE_OLD (long expired)
+const PROBE_OLD: i32 = -1_000_000;
+fn is_probe(x: &KK) -> bool { x.1 == PROBE_EXP || x.1 <= PROBE_OLD }
+fn pexp(sel: u64) -> i32 { if sel % 3 == 0 { PROBE_OLD - (sel % 5) as i32 } else { PROBE_EXP } }
+fn observe(x: &KK) { NOW.with(|n| { let (now, ex) = n.get(); if now != i32::MIN && !is_probe(x) && x.0 != ex && x.1 <= now { SAW_EXPIRED.with(|s| s.set((x.0, x.1))); } }); }
 impl Ord for KK { fn cmp(&self, o: &Self) -> Ordering { cb_fuse(); observe(self); observe(o); self.0.cmp(&o.0) } }
 // fault injection: when armed, the n-th call of the expiration accessor panics (C18)
 thread_local! { static FUSE: std::cell::Cell<i64> = std::cell::Cell::new(-1); }
@@ -302,9 +307,9 @@ fn explore_key(seed: u64, steps: usize, nkeys: i32) -> Result<(), String> {
             }
             4 | 5 => {
                 let want = lv.iter().filter(|e| e.0 < k).last().map(|e| e.2).unwrap_or(-1);
-                h!(hist, "first_less(t={},k={}); ", time, k);
-                watch(time, i32::MIN); let a = t.first_less(time, -1, KK(k, PROBE_EXP)); let seen_a = unwatch();
-                watch(time, i32::MIN); let b = l.first_less(time, -1, KK(k, PROBE_EXP)); let seen_b = unwatch();
+                let pe = pexp(rng.below(6)); h!(hist, "first_less(t={},k={}{}); ", time, k, if pe == PROBE_EXP { String::new() } else { format!(",probe-exp={}", pe) });
+                watch(time, i32::MIN); let a = t.first_less(time, -1, KK(k, pe)); let seen_a = unwatch();
+                watch(time, i32::MIN); let b = l.first_less(time, -1, KK(k, pe)); let seen_b = unwatch();
                 if a != want { return Err(format!("[C01{}] {}-> tree {} expected {}", if seen_a.is_some() { ",C20" } else { "" }, hist, a, want)); }
                 if let Some(x) = seen_a { return Err(format!("[C20] {}-> the tree handed the expired key ({},exp {}) to the caller's comparison at time {}", hist, x.0, x.1, time)); }
                 if b != want { return Err(format!("[C13{}] {}-> list {} expected {}", if seen_b.is_some() { ",C20" } else { "" }, hist, b, want)); }
@@ -312,9 +317,9 @@ fn explore_key(seed: u64, steps: usize, nkeys: i32) -> Result<(), String> {
             }
             6 | 7 => {
                 let want = lv.iter().filter(|e| e.0 <= k).last().map(|e| e.2).unwrap_or(-1);
-                h!(hist, "first_less_or_equal(t={},k={}); ", time, k);
-                watch(time, i32::MIN); let a = t.first_less_or_equal(time, -1, KK(k, PROBE_EXP)); let seen_a = unwatch();
-                watch(time, i32::MIN); let b = l.first_less_or_equal(time, -1, KK(k, PROBE_EXP)); let seen_b = unwatch();
+                let pe = pexp(rng.below(6)); h!(hist, "first_less_or_equal(t={},k={}{}); ", time, k, if pe == PROBE_EXP { String::new() } else { format!(",probe-exp={}", pe) });
+                watch(time, i32::MIN); let a = t.first_less_or_equal(time, -1, KK(k, pe)); let seen_a = unwatch();
+                watch(time, i32::MIN); let b = l.first_less_or_equal(time, -1, KK(k, pe)); let seen_b = unwatch();
                 if a != want { return Err(format!("[C01{}] {}-> tree {} expected {}", if seen_a.is_some() { ",C20" } else { "" }, hist, a, want)); }
                 if let Some(x) = seen_a { return Err(format!("[C20] {}-> the tree handed the expired key ({},exp {}) to the caller's comparison at time {}", hist, x.0, x.1, time)); }
                 if b != want { return Err(format!("[C13{}] {}-> list {} expected {}", if seen_b.is_some() { ",C20" } else { "" }, hist, b, want)); }
@@ -328,9 +333,9 @@ fn explore_key(seed: u64, steps: usize, nkeys: i32) -> Result<(), String> {
             }
             8 | 9 => {
                 let want = lv.iter().find(|e| e.0 == k).map(|e| e.2);
-                h!(hist, "get_value(t={},k={}); ", time, k);
-                watch(time, i32::MIN); let a = t.get_value(time, KK(k, PROBE_EXP)); let seen_a = unwatch();
-                watch(time, i32::MIN); let b = l.get_value(time, KK(k, PROBE_EXP)); let seen_b = unwatch();
+                let pe = pexp(rng.below(6)); h!(hist, "get_value(t={},k={}{}); ", time, k, if pe == PROBE_EXP { String::new() } else { format!(",probe-exp={}", pe) });
+                watch(time, i32::MIN); let a = t.get_value(time, KK(k, pe)); let seen_a = unwatch();
+                watch(time, i32::MIN); let b = l.get_value(time, KK(k, pe)); let seen_b = unwatch();
                 if a != want { return Err(format!("[C06{}] {}-> tree {:?} expected {:?}", if seen_a.is_some() { ",C20" } else { "" }, hist, a, want)); }
                 if let Some(x) = seen_a { return Err(format!("[C20] {}-> the tree handed the expired key ({},exp {}) to the caller's comparison at time {}", hist, x.0, x.1, time)); }
                 if b != want { return Err(format!("[C13{}] {}-> list {:?} expected {:?}", if seen_b.is_some() { ",C20" } else { "" }, hist, b, want)); }
